@@ -792,6 +792,7 @@ func valueStringRule(c *Ctx, r *Report, rule string) {
 			}
 			recv := ci.Common().Args[0]
 			ok := false
+			why := "dominated by Kind() == String on the same value"
 			for _, cd := range DomConds(ci.(ssa.Instruction).Block()) {
 				tag, k, isTest := enumTest(cd.V, kt)
 				if !isTest || k != stringKind {
@@ -807,11 +808,112 @@ func valueStringRule(c *Ctx, r *Report, rule string) {
 					}
 				}
 			}
+			// a key handed out by M.MapKeys() has the kind of M's key type: M.Type().Key().Kind() == String
+			// established in front of the call says the same about every key
+			if m := mapKeysOrigin(recv); !ok && m != nil {
+				for _, cd := range DomConds(ci.(ssa.Instruction).Block()) {
+					tag, k, isTest := enumTest(cd.V, kt)
+					if !isTest || k != stringKind || (cd.V.(*ssa.BinOp).Op == token.EQL) != cd.Truth {
+						continue
+					}
+					if keyKindOf(tag, m) {
+						ok = true
+						why = "a key from MapKeys() of a map whose key type's kind was tested to be String"
+					}
+				}
+			}
 			r.Analysed["reflect.Value.String calls"]++
-			r.Check(ok, rule, c.FnName(fn), "Value.String on a string", c.Pos(ci.Pos()), "dominated by Kind() == String on the same value",
+			r.Check(ok, rule, c.FnName(fn), "Value.String on a string", c.Pos(ci.Pos()), why,
 				"reflect.Value.String() is called on a value whose kind is not known to be String: for any other kind (an interface-typed map key as produced by the YAML front-end, say) it returns the constant placeholder \"<T Value>\" instead of the text")
 		}
 	}
+}
+
+// mapKeysOrigin: v is an element of the slice some M.MapKeys() returned (read by index, directly or through a
+// local that is assigned that result and nothing else) — the map value M, otherwise nil.
+func mapKeysOrigin(v ssa.Value) ssa.Value {
+	ld, ok := v.(*ssa.UnOp)
+	if !ok || ld.Op != token.MUL {
+		return nil
+	}
+	ia, ok := ld.X.(*ssa.IndexAddr)
+	if !ok {
+		return nil
+	}
+	sl := ia.X
+	if l2, isLoad := sl.(*ssa.UnOp); isLoad && l2.Op == token.MUL {
+		al, isAlloc := l2.X.(*ssa.Alloc)
+		if !isAlloc || al.Referrers() == nil {
+			return nil
+		}
+		var stored ssa.Value
+		n := 0
+		for _, ref := range *al.Referrers() {
+			switch x := ref.(type) {
+			case *ssa.Store:
+				if x.Addr != al {
+					return nil // the address itself escapes
+				}
+				stored = x.Val
+				n++
+			case *ssa.UnOp, *ssa.DebugRef:
+			case *ssa.MakeClosure:
+				// captured: the closure must not assign it
+				for i, b := range x.Bindings {
+					if b != al {
+						continue
+					}
+					fv := x.Fn.(*ssa.Function).FreeVars[i]
+					if fv.Referrers() != nil {
+						for _, fr := range *fv.Referrers() {
+							if st, isSt := fr.(*ssa.Store); isSt && st.Addr == fv {
+								return nil
+							}
+							if _, isLd := fr.(*ssa.UnOp); !isLd {
+								if _, isDbg := fr.(*ssa.DebugRef); !isDbg {
+									return nil
+								}
+							}
+						}
+					}
+				}
+			default:
+				return nil
+			}
+		}
+		if n != 1 {
+			return nil
+		}
+		sl = stored
+	}
+	call, ok := sl.(*ssa.Call)
+	if !ok {
+		return nil
+	}
+	if g := call.Call.StaticCallee(); g == nil || g.String() != "(reflect.Value).MapKeys" {
+		return nil
+	}
+	return call.Call.Args[0]
+}
+
+// keyKindOf: tag is M.Type().Key().Kind() for the reflect value m.
+func keyKindOf(tag, m ssa.Value) bool {
+	kc, ok := tag.(*ssa.Call)
+	if !ok || !kc.Call.IsInvoke() || kc.Call.Method.Name() != "Kind" {
+		return false
+	}
+	key, ok := kc.Call.Value.(*ssa.Call)
+	if !ok || !key.Call.IsInvoke() || key.Call.Method.Name() != "Key" {
+		return false
+	}
+	ty, ok := key.Call.Value.(*ssa.Call)
+	if !ok {
+		return false
+	}
+	if g := ty.Call.StaticCallee(); g == nil || g.String() != "(reflect.Value).Type" {
+		return false
+	}
+	return sameReflectValue(ty.Call.Args[0], m)
 }
 
 // injectiveSortKey: "" if the comparator operand is the slice element itself or mapKeyString of it
